@@ -57,6 +57,10 @@ CLAIMED = {
          "Three layers seeded from the same tape. (1) Cooperative deterministic schedule: 16..32 real goroutines run the read-only observers on one shared value (local or decoded), exactly one at a time, switching only at yield points inserted into every statement of the library by a go/ast overlay generated from the working tree; a random-walk or PCT-style scheduler draws every switch from the tape (replayable, shrinkable); oracle: each result equals the solo result computed on an identical twin. (2) Immutability monitor: a reflective deep fingerprint of everything reachable from the shared value and of the registries is compared after every scheduler step. (3) Race detector: free-running goroutines released from one barrier in a -race build; a report becomes a VIOLATION whose replay file regenerates the same tree and op assignment. Sampling, not proof.",
          "5/C18", "trusted: the instrumenter (yields only inside cockroachdb/errors; a step inside fmt/redact/protobuf/sentry is atomic for layer 1), the exclusion list of dependency-owned atomic size caches in the fingerprint (sched.Excluded), the Go race detector; layer 3's interleaving is not controlled by the simulator",
          "deterministic simulation: cooperative seeded scheduler over compiled-in yield points + immutability monitor, complemented by a race-detector run"),
+ "C20": ("exploration",
+         "Real gRPC server (UnaryServerInterceptor) and clients (with and without UnaryClientInterceptor) over an in-memory listener whose connection writes are fragmented as a function of (seed, direction, stream offset); each run registers 1..4 generated trees, nil and two bare status errors with the Echo handler and issues 2..12 RPCs from 1..8 concurrent client goroutines; per RPC: nil stays nil, status errors keep code and message, any other error equals the same error transferred directly with EncodeError/DecodeError (visible tree with stacks and safe details, Is row, accessors, %v, %+v, re-encoded bytes) and a plain client sees the attached gRPC code (Unknown otherwise). Sampling, not proof.",
+         "5/C20", "trusted: google.golang.org/grpc and the HTTP/2 stack run for real on the in-memory network; goroutine interleaving inside gRPC is not decided by the simulator (per-RPC results are schedule-independent when the property holds); no transport faults beyond fragmentation since the property says nothing about failed RPCs",
+         "deterministic simulation (partial): seeded workload and seeded stream fragmentation under real gRPC stacks, per-RPC differential oracle against the direct transfer"),
 }
 
 NOT_APPLICABLE = {
